@@ -146,7 +146,11 @@ static void run(int v)
 	vx_set_horizon(8ull * 1000000000ull);
 	vx_set_io_only(getenv("VX_IO_FULL") ? 0 : 1, getenv("VX_IO_FULL") ? 0 : 1);   // VX_IO_FULL: ordinary preemption bounding over every point instead
 	if (g_s->kind == S_INTERVAL) vx_set_time_deviations(0);
-	g_hq = dispatch_queue_create("vx.io.handlers", DISPATCH_QUEUE_CONCURRENT);
+	// handlers run on a concurrent queue (so that re-entrance of one operation's handler would be possible if the library
+	// allowed it), except where the order of completion of different operations is observed: only a serial handler queue
+	// turns "completed (= final handler submitted) in submission order" into an order of handler invocations
+	int ordered = (g_s->kind == S_READ2 || g_s->kind == S_READ_BARRIER_READ);
+	g_hq = dispatch_queue_create("vx.io.handlers", ordered ? DISPATCH_QUEUE_SERIAL : DISPATCH_QUEUE_CONCURRENT);
 	g_cq = dispatch_queue_create("vx.io.cleanup", NULL);
 	int d = 0; dispatch_async_f(g_hq, &d, warm_fn); wait_int(&d, 1);
 	d = 0; dispatch_async_f(g_cq, &d, warm_fn); wait_int(&d, 1);
@@ -283,7 +287,15 @@ static int check(int v, const vx_log *l, char *msg, size_t len)
 		if (s->kind == S_READ_BARRIER_READ) {
 			int bs = ev_first(l, EV_BARRIER_S, 0), be = ev_first(l, EV_BARRIER_E, 0);
 			if (bs < 0 || ev_count(l, EV_BARRIER_S, 0) != 1) FAILF(msg, len, "barrier block ran %d times", ev_count(l, EV_BARRIER_S, 0));
-			if (bs < d0) FAILF(msg, len, "barrier started (event #%d) before the operation submitted before it completed (event #%d)", bs, d0);
+			// the barrier block owns the descriptor: the first operation's transfers are over (its 2 bytes consumed) before the
+			// block starts and the library issues no transfer while it runs.  (The final handler of the first operation is only
+			// guaranteed to have been submitted, not to have run: handlers and the barrier block run on different queues.)
+			int64_t before = 0;
+			for (uint32_t i = 0; i < l->n; i++) if (l->ev[i].kind == EV_IO) {
+				if ((int)i < bs && l->ev[i].arg > 0) before += l->ev[i].arg;
+				if ((int)i > bs && (int)i < be) FAILF(msg, len, "the library issued a transfer on the descriptor (event #%u) while the barrier block was running (events #%d..#%d)", i, bs, be);
+			}
+			if (before != 2) FAILF(msg, len, "barrier block started (event #%d) after %lld bytes had been consumed: the 2-byte read submitted before it had not finished its transfers, or the read submitted after it had already started", bs, (long long)before);
 			for (uint32_t i = 0; i < l->n; i++) if (l->ev[i].kind == EV_IOH && l->ev[i].id == 1 && (int)i < be) FAILF(msg, len, "a handler of the operation submitted after the barrier ran (event #%u) before the barrier finished (event #%d)", i, be);
 		}
 	}
